@@ -377,6 +377,8 @@ func master() int {
 		"infrastructure_notes":          a.infra,
 		"known_findings_reported":       countPrefix(lines, "KNOWN-FINDING"),
 		"failing_classes":               len(a.failures),
+		"replays_retried":               a.stats.Retried,
+		"replays_resynchronised":        a.stats.Resynced,
 		"unreproducible_failures":       unrepro,
 		"failing_class_keys":            allKeys,
 	}
